@@ -11,7 +11,7 @@ cp $out/patch.diff $dest/patch.diff
 cp $out/meta.json $dest/agent_meta.json 2>/dev/null
 log=$dest/confirm.log; : > $log
 cd $wt
-git -C $wt diff --quiet && git -C $wt apply $out/patch.diff
+git -C $wt checkout -- . ; git -C $wt apply $out/patch.diff
 echo "== suite with patch" >> $log
 go build ./... >> $log 2>&1; go test -vet=off -count=1 ./... 2>&1 | tail -6 >> $log
 suite_ok=$(go test -vet=off -count=1 ./... 2>&1 | grep -c "^FAIL\|^---")
